@@ -324,6 +324,23 @@ def run(program, res, tier):
                 else:
                     res.fail_at("C22-S1", m, "check-ignores-switch",
                                 f"{mname} calls _check_spec although the switch may be off (it can raise on malformed specs)", n.stmt)
+    # every other method of the class that checks a value (calls _check_spec) or raises TypeError is under the switch as well: a checking helper added next to
+    # check_args / check_return that never asks the switch raises although checking is off
+    for mname, m in sorted(sr.methods.items()):
+        if mname in ("check_args", "check_return", "__init__", "__call__") or mname.startswith("_"):
+            continue  # (private workers are reached through the guarded entry points: their call sites are what S1 checks)
+        checks = [c for c in ast.walk(m.node) if isinstance(c, ast.Call) and (dotted_name(c.func) or "").endswith("_check_spec")]
+        g = cfgmod.build(m.node)
+        rs = [r for r in g.raises() if r.kind == "raise"]
+        if not checks and not rs:
+            continue
+        res.analysed(m)
+        unguarded = [r for r in rs if not _switch_guard(g, r)]
+        if unguarded:
+            res.fail_at("C22-S1", m, f"raise-ignores-switch:{mname}",
+                        f"SchemaRaises.{mname} raises without asking SchemaCheckSwitch: with checking off a call it is used for still raises TypeError instead of running the function", unguarded[0].stmt)
+        else:
+            res.ok("C22-S1", f"{mname}: every raise is reachable only with the switch on")
     # ---- S2
     call = sr.methods.get("__call__")
     if call is None:
